@@ -38,7 +38,12 @@ def _int_paths(obj, prefix=()):
 
 
 def minimise(mod, sc: dict, cls: str, max_execs: int = 300, accept=None):
-    """Returns (minimised scenario, executions used)."""
+    """Returns (minimised scenario, executions used).  Bounded by executions and by wall time (the clock
+    is read between runs only: it bounds the effort of minimisation, never the outcome of a run; whatever
+    is returned is re-verified in a fresh interpreter before it is reported)."""
+    import time
+
+    t_end = time.time() + float(getattr(mod, "SHRINK_SECONDS", 120))
     fixup = getattr(mod, "fixup", None)
     list_keys = getattr(mod, "SHRINK_LISTS", ("ops", "faults"))
     min_int = getattr(mod, "SHRINK_MIN", {})
@@ -46,7 +51,8 @@ def minimise(mod, sc: dict, cls: str, max_execs: int = 300, accept=None):
 
     def fails(cand) -> bool:
         nonlocal execs
-        if execs >= max_execs:
+        if execs >= max_execs or time.time() > t_end:
+            execs = max_execs
             return False
         if fixup is not None:
             try:
